@@ -415,7 +415,8 @@ def c18(tier, seed, replay=None):
         for mode in ("fwd", "rev"):
             for order in (1, 2):
                 jobs.append({"kind": "correct", "arg": arg, "mode": mode, "order": order, "n": n})
-            defects = ["factor", "sign", "entry"] + (["transpose"] if arg == "matrix" else []) + (["conj"] if arg == "complex" else [])
+            defects = ["factor", "sign", "entry", "nan"] + (["transpose"] if arg == "matrix" else []) + (["conj"] if arg == "complex" else []) + \
+                      (["inf"] if arg in ("array", "scalar") else [])
             for df in defects:
                 if arg == "scalar" and df == "entry":
                     continue
